@@ -222,12 +222,18 @@ def assemble(lines, argv=(), strict_header=False):
     argspec = None
     items = {'state': [], 'const': [], 'code': []}
     cur_owner = None
+    chains = []                 # open statement chains: (indent, last marker id)
+    nmarks = 0
     out_fmt = False
     for raw in lines:
         if isinstance(raw, str):
             raw = raw.encode('utf-8')
         code, comment = _strip_comment(raw)
         indent = len(raw) - len(raw.lstrip(b' '))
+        if section == 'code' and raw.strip():
+            # any line at a lower indentation ends the statement chains of deeper blocks
+            while chains and chains[-1][0] > indent:
+                chains.pop()
         if comment is not None and section == 'code':
             c = comment.strip().decode('utf-8', 'replace')
             if c.startswith('Function ') and c.endswith(':'):
@@ -236,7 +242,13 @@ def assemble(lines, argv=(), strict_header=False):
             else:
                 m = _STMT_RE.match(c)
                 if m:
-                    items['code'].append(('mark', indent, m.group(2), m.group(1)))
+                    prev = None
+                    if chains and chains[-1][0] == indent:
+                        prev = chains[-1][1]
+                        chains.pop()
+                    chains.append((indent, nmarks))
+                    items['code'].append(('mark', indent, m.group(2), m.group(1), prev))
+                    nmarks += 1
                 elif c.startswith('stop block') or c.startswith('undo block'):
                     items['code'].append(('note', c))
         line = code.strip()
@@ -464,6 +476,7 @@ def assemble(lines, argv=(), strict_header=False):
     jlabel = []                 # for 'j' with an immediate label operand: the label name
     marks_at = {}               # pc -> [(indent, class, span, mark_id)]
     marks = []                  # mark_id -> (indent, class, span, pc)
+    prev_sib = []               # mark_id -> previous statement of the same block (or None)
     notes_at = {}
     owner = '<start>'
     in_lib = False
@@ -473,6 +486,7 @@ def assemble(lines, argv=(), strict_header=False):
             continue
         if it[0] == 'mark':
             mid = len(marks)
+            prev_sib.append(it[4])
             marks.append((it[1], it[2], it[3], len(code)))
             marks_at.setdefault(len(code), []).append(mid)
             continue
@@ -536,6 +550,7 @@ def assemble(lines, argv=(), strict_header=False):
     P.extents = extents
     P.marks = marks
     P.marks_at = marks_at
+    P.prev_sib = prev_sib
     P.notes_at = notes_at
     P.argv = list(argv)
     return P
@@ -697,22 +712,7 @@ def run(P, max_steps=2_000_000, mon=None):
         mstate = {}             # monitor dictionary, journaled
         marks = P.marks
         marks_at = P.marks_at
-        # previous sibling of each statement marker
-        prev_sib = [None] * len(marks)
-        stack_ = []
-        cur_owner = None
-        for mid, (ind, cls, span, mpc) in enumerate(marks):
-            ow = owners[mpc] if mpc < ncode else None
-            if ow != cur_owner:
-                stack_ = []
-                cur_owner = ow
-            while stack_ and stack_[-1][0] > ind:
-                stack_.pop()
-            if stack_ and stack_[-1][0] == ind:
-                prev_sib[mid] = stack_[-1][1]
-                stack_[-1] = (ind, mid)
-            else:
-                stack_.append((ind, mid))
+        prev_sib = P.prev_sib
         loop_heads = {}
         break_of = {}
         for lpc, nms in code_labels.items():
